@@ -465,3 +465,7 @@ pub trait ClientSocket {
     /// Send a packet on the event socket, waiting for a timestamp.
     fn send_event(&mut self, buf: &[u8]) -> impl Future<Output = Result<Timestamp, Self::Error>>;
 }
+
+#[cfg(all(test, pendulum_project_ntpd_rs_verif))]
+#[path = "/verif/harness/statime-csptp/hook_source.rs"]
+mod verif_hook;
